@@ -61,7 +61,16 @@ class BaseCache(Cache):
         return f'{self.KEY_PREFIX}{task.__class__.__qualname__}__{hashed}'
 
     def is_cached(self, storage: Storage, task: Task) -> bool:
-        return storage.exists(task.cache_key)
+        if not storage.exists(task.cache_key):
+            return False
+        # The metadata file is written last by save(), so a result
+        # is only cached once its metadata is complete. A save that
+        # failed or was killed part-way leaves no readable metadata.
+        try:
+            self.load_metadata(storage, type(task), task.cache_key)
+        except TaskNotFound:
+            return False
+        return True
 
     def save(self, storage: Storage, task: Task[ResultT], task_result: TaskResult[ResultT]):
         start_timestamp = None
@@ -80,17 +89,28 @@ class BaseCache(Cache):
             'start_timestamp': start_timestamp,
             'duration_seconds': duration_seconds,
         }
+        # The metadata file marks the cached result as complete, so it
+        # is written after the result. It is emptied first so that a
+        # previous entry cannot be mistaken for the result of this save
+        # if the save fails or is killed part-way.
+        with storage.file_handle(task.cache_key, self.METADATA_FILENAME, mode='w'):
+            pass
+        self.save_result(storage, task, task_result.value)
         metadata_file = storage.file_handle(task.cache_key, self.METADATA_FILENAME, mode='w')
         with metadata_file:
             json.dump(metadata, metadata_file, indent=2)
-        self.save_result(storage, task, task_result.value)
 
     def load_metadata(self, storage: Storage, task_type: Type[Task], key: str) -> dict[str, Any]:
         if not key.startswith(f'{self.KEY_PREFIX}{task_type.__qualname__}'):
             raise TaskNotFound
-        with storage.file_handle(key, self.METADATA_FILENAME, mode='r') as metadata_file:
-            metadata = json.load(metadata_file)
-        if metadata.get('cache') != self.__class__.__qualname__:
+        try:
+            with storage.file_handle(key, self.METADATA_FILENAME, mode='r') as metadata_file:
+                metadata = json.load(metadata_file)
+        except (OSError, ValueError):
+            # Missing or incomplete metadata: no complete result is
+            # cached under this key.
+            raise TaskNotFound
+        if not isinstance(metadata, dict) or metadata.get('cache') != self.__class__.__qualname__:
             raise TaskNotFound
         return metadata
 
